@@ -107,7 +107,7 @@ def is_position_pass(ctx, b):
     return any(f['item_ok'] and f['pos_ok'] and f['yielders'] and all(ok for (_y, ok) in f['yielders']) for f in facts)
 
 
-@rule('GC1', ['C01', 'C02', 'C04', 'C18'], floor=1, template='must-pass-through')
+@rule('GC1', ['C01', 'C02', 'C03', 'C04', 'C18'], floor=1, template='must-pass-through')
 def gc1(ctx):
     """Every unlink is dominated (on every call chain) by a position pass over the empty queues."""
     sites = unlink_prim_sites(ctx)
@@ -248,7 +248,7 @@ def gc2w(ctx):
         ctx.missing('frame', 'no (position pass, unlink) pair found')
 
 
-@rule('GC3', ['C01', 'C02', 'C04', 'C18'], floor=1, template='liveness')
+@rule('GC3', ['C01', 'C02', 'C03', 'C04', 'C18'], floor=1, template='liveness')
 def gc3(ctx):
     """The writer's current file is pinned by a live FileNumber clone across the position pass."""
     n = 0
@@ -343,7 +343,7 @@ def tracker_removals(ctx):
     return out
 
 
-@rule('GC4', ['C01', 'C02', 'C06'], floor=1, template='guard-dominates-use')
+@rule('GC4', ['C01', 'C02', 'C03', 'C06'], floor=1, template='guard-dominates-use')
 def gc4(ctx):
     """Only an unreferenced oldest file is popped, and never the last one."""
     rem = tracker_removals(ctx)
